@@ -250,5 +250,5 @@ func TestC06(t *testing.T) {
 	s := newSuite(t, "C06",
 		"1..6 concurrent responses (0..200000 bytes, buffered / streamed declared / streamed unknown, generated reader chunking) against our SETTINGS_INITIAL_WINDOW_SIZE from {0,1,100,16383,65535,1MiB}, then a generated schedule of up to 30 actions {release handler, WINDOW_UPDATE(stream, n), WINDOW_UPDATE(connection, n), SETTINGS_INITIAL_WINDOW_SIZE up or down (down far enough to drive open streams negative)}, lock-step with quiescence after each action. Oracle: the peer's ledgers (from exactly the SETTINGS/WINDOW_UPDATE it sent) never go negative on a DATA frame, no frame exceeds our MAX_FRAME_SIZE; at every quiescent point a released stream with bytes owed has min(stream, connection) window <= 0 (otherwise the server sits on sendable data); after generous grants every response is complete and exact. Non-trivial = a stream was blocked at least once and a SETTINGS change hit an open stream; distinct by case hash.")
 	defer s.finish()
-	runLane(s, Lane[c06Case]{Name: "windows", Quick: 4000, Thor: 300000, Gen: c06Gen, Run: c06Run})
+	runLane(s, Lane[c06Case]{Name: "windows", Journal: true, Quick: 4000, Thor: 300000, Gen: c06Gen, Run: c06Run})
 }
